@@ -49,7 +49,7 @@ def run(rep, tier, seed):
     core.build("rel")
     d = core.rundir("C16")
     hb = core.hbin("h_c16")
-    for shape in (1, 2):
+    for shape in (1, 2, 3):
         one_shape(rep, tier, d, hb, shape)
     rep.assumptions += ["names are unique among library members (gdstk's documented requirement)",
                         "objects replaced away are not brought back; a raw cell needed by other "
